@@ -191,6 +191,86 @@ Proof.
     vm_compute; discriminate.
 Qed.
 
+
+(* ---- the handlers of the module, as written ---- *)
+
+(* Every kernel callback of the LimitsModule (create_node, drop_node, move_module, open, read,
+   write, set, remove, scan_keys, drain_substates, scan_sorted_substates; Start / IOAccess / other
+   variants) answers exactly as the process_* call named by `hev_op` (Start of open and remove: the
+   key; write: the value; set: key then value; create_node: every (key, value) of the node in
+   order; every IOAccess variant: process_io_access; anything else: nothing). *)
+Theorem C49_handlers_as_process_calls : forall c f s e, limits_on f = true ->
+  step c f s (OH e) = match hev_op e with Some o => step c f s o | None => (s, ROk) end.
+Proof. intros c f s e Hf. apply (step_norm c f s (OH e) Hf). Qed.
+
+(* one event of any kind (handler events included): Ok iff it does not exceed a limit in the state
+   it meets; a limit error only if it does *)
+Theorem C49_step_ok_iff_within : forall c f s o, limits_on f = true ->
+  (snd (step c f s o) = ROk /\ ~ exceeds c f s o) \/
+  (exists e, snd (step c f s o) = RErr e /\ exceeds c f s o) \/
+  (snd (step c f s o) = RPanic).
+Proof. exact step_cases. Qed.
+
+(* C49_counters_exact over ALL events: IO accesses (consistent with the tracked substates) that
+   arrive through any of the eleven forwarding handlers or directly, interleaved with arbitrary
+   other events (key / value checks, invokes, returns, logs, events, ...), whatever the answers:
+   after the whole sequence the counters are the sums over the tracked substates, and no IO access
+   is answered with a panic (no underflow). *)
+Theorem C49_counters_exact_all_handlers : forall c f evs,
+  limits_on f = true -> consistent_ev ([], []) evs ->
+  let s := exec_all c f state0 (map aev_op evs) in
+  heap s = total (fst (aexec_ev ([], []) evs)) /\
+  track s = total (snd (aexec_ev ([], []) evs)) /\
+  NoDup (keys (fst (aexec_ev ([], []) evs))) /\ NoDup (keys (snd (aexec_ev ([], []) evs))) /\
+  io_no_panic c f state0 evs.
+Proof.
+  intros c f evs Hf HC. destruct (counters_exact_all c f evs _ _ Hf inv0 HC) as [(H1 & H2 & H3 & H4) H5].
+  cbv zeta. repeat split; assumption.
+Qed.
+
+(* ---- the kernel call depth ---- *)
+
+(* The transaction processor runs in the root frame (depth 0; observed on the engine: recursion n
+   passes iff n <= max_call_depth, also for max_call_depth = 0 where every invocation fails); an
+   invocation that passes before_invoke runs at depth + 1, a return goes back. Over every sequence
+   of events (any invoke / return pattern), every state of a non-failed run has depth <=
+   max_call_depth ... *)
+Theorem C49_depth_never_exceeds : forall c f ops s', limits_on f = true ->
+  run c f state0 ops 0 = inl s' -> depth s' <= max_call_depth c.
+Proof.
+  intros c f ops s' Hf H. eapply run_depth_le; [exact Hf|exact H|]. unfold state0. cbn [depth]. apply N.le_0_l.
+Qed.
+
+(* ... so a depth above max_call_depth never reaches the `==` of before_invoke: on every reachable
+   state the check as written answers exactly like `>=` *)
+Theorem C49_depth_eq_equiv_ge : forall c f pre s size, limits_on f = true ->
+  run c f state0 pre 0 = inl s -> before_invoke c s size = before_invoke_ge c s size.
+Proof. exact depth_eq_equiv_ge. Qed.
+
+(* non-vacuity of the handler part: a transaction-like sequence through seven different handlers *)
+Example C49_nonvacuous_handlers :
+  let evs := [AEOther (OInvoke 10);
+              AEOther (OH (HCreateNodeStart [(KField, 5); (KMap 3, 7)]));
+              AEIo (Some HioCreateNode) (AHeap 1 32 None (Some 5));
+              AEIo (Some HioCreateNode) (AHeap 2 34 None (Some 7));
+              AEOther (OH HCreateNodeEnd);
+              AEOther (OH (HOpenStart (KMap 3))); AEIo (Some HioOpen) (ATrack 9 40 None (Some 11));
+              AEOther (OH (HWriteStart 8)); AEIo (Some HioWrite) (AHeap 2 34 (Some 7) (Some 8));
+              AEIo (Some HioMoveModule) (AHeap 1 32 (Some 5) None); AEIo (Some HioMoveModule) (ATrack 1 32 None (Some 5));
+              AEOther (OH (HRemoveStart (KSorted 1))); AEIo (Some HioRemove) (ATrack 9 40 (Some 11) None);
+              AEIo (Some HioDrain) (AHeap 2 34 (Some 8) None); AEIo (Some HioScanKeys) ARead;
+              AEOther OReturn] in
+  let c := mkConfig 2 100 100 3 8 10 10 10 10 1 2 in
+  consistent_ev ([], []) evs /\
+  tx_outcome c (mkFlags true true) (map aev_op evs) = ROk /\
+  total (fst (aexec_ev ([], []) evs)) = 0 /\ total (snd (aexec_ev ([], []) evs)) = 37 /\
+  tx_outcome (mkConfig 2 100 100 2 8 10 10 10 10 1 2) (mkFlags true true) (map aev_op evs) = RErr (KeyExceeded 3) /\
+  tx_outcome (mkConfig 2 78 100 3 8 10 10 10 10 1 2) (mkFlags true true) (map aev_op evs) = RErr (HeapExceeded 79 78).
+Proof.
+  repeat split; try (vm_compute; reflexivity); cbn; unfold agrees; cbn; repeat split; try reflexivity;
+    vm_compute; discriminate.
+Qed.
+
 Print Assumptions C49_exceed_iff_error.
 Print Assumptions C49_boundary_exact.
 Print Assumptions C49_counters_exact.
@@ -205,3 +285,9 @@ Print Assumptions C49_no_panic_refuted.
 Print Assumptions C49_no_panic_except_known.
 Print Assumptions C49_generated_configs_safe.
 Print Assumptions C49_nonvacuous.
+Print Assumptions C49_handlers_as_process_calls.
+Print Assumptions C49_step_ok_iff_within.
+Print Assumptions C49_counters_exact_all_handlers.
+Print Assumptions C49_depth_never_exceeds.
+Print Assumptions C49_depth_eq_equiv_ge.
+Print Assumptions C49_nonvacuous_handlers.
